@@ -61,6 +61,10 @@ pub enum Ret {
     /// fd sources: the owner unwraps the still registered Generic (keeping the fd open) and
     /// removes itself
     UnwrapRemove,
+    /// transient parents: the child returns Disable and the parent itself returns Disable too
+    /// (instead of passing the wrapper's Reregister on), so that the loop unregisters the
+    /// parent with the child still registered
+    DisableBoth,
     /// timers
     TDrop,
     /// timers: reschedule to this absolute virtual time (ns)
@@ -156,6 +160,10 @@ pub enum Op {
         sock: bool,
         #[serde(default)]
         synth_on_sock: bool,
+        /// the source keeps the token of its synthetic events across unregister() (nothing says
+        /// a source has to forget its tokens; calloop's own sources do)
+        #[serde(default)]
+        forgetful: bool,
     },
     /// a parent holding TransientSource<child>; child over a pipe read end or a timer
     InsertTransient { id: Id, child: ChildSpec, from_default: bool, script: Script },
